@@ -40,7 +40,9 @@ Record env := mkEnv {
 
 Inductive op := Assign (v : val) | Read | Delete     (* obj.x = v, obj.x, del obj.x *)
               | QuietAssign (v : val)             (* obj.trait_set(trait_change_notify=False, x=v) / trait_setq *)
-              | Retrait.                          (* obj.add_trait("x", <the same trait definition>) over the existing trait *)
+              | Retrait                           (* obj.add_trait("x", <the same trait definition>) over the existing trait *)
+              | Other.                            (* an assignment to ANOTHER trait of the same object (an Event, a sibling
+                                                     attribute built from the same definition): nothing to do with x *)
 Inductive outcome := Ok | TraitError | AttributeError.
 Definition call := (nat * oldv * val)%type.       (* handler id, old, new *)
 Record obs := mkObs {
@@ -114,6 +116,7 @@ Section WithEnv.
                   (Some d, mkObs Ok (Some d) (c0 ++ cs) (k0 ++ sk))
             end
         end
+    | Other => (s, mkObs Ok s [] [])       (* other traits have their own ctrait, notifier list and dict entry *)
     | Retrait =>
         (* has_traits.py add_trait l.2835-2848: the new instance trait is a clone of the given definition and takes over
            the notifier list of the trait it replaces (static wrappers included, nothing is attached a second time);
